@@ -302,6 +302,10 @@ def C19(ctx):
     rb = tlc("MerkleCommit", "MerkleCommit", cfg="MCMerkleDirect", workers=2, libs=TREE_LIBS)
     if rb.violated != "Consistent":
         raise ToolError("negative control failed: the 'direct' commit program should violate Consistent")
+    # second negative control: pruning deletes issued before the atomic batch must violate TreeIntact
+    rc = tlc("MerkleCommit", "MerkleCommit", cfg="MCMerklePruneFirst", workers=2, libs=TREE_LIBS)
+    if rc.violated != "TreeIntact":
+        raise ToolError("negative control failed: the 'prunefirst' commit program should violate TreeIntact")
     nproc = 8
     beh = _tree_behaviours(ctx, 10 if q else 160, tiny=False)
     ctx.sample({"behaviour_step": beh[0][1]})
@@ -330,18 +334,29 @@ def C19(ctx):
     ctx.sample({"crash_event": crashes[len(crashes) // 2]})
     _validate_split(ctx, "MerkleCommit", "TraceMerkleCommit", evs, "merkle:crash-trace", "crash-point enumeration",
                     libs=["SubstateStore", "StateTree"])
+    # binding self-test: a reopened store whose tree cannot be walked must be rejected
+    i0 = next(i for i, e in enumerate(evs) if e.get("a") == "crash")
+    s0 = max(j for j in range(i0 + 1) if evs[j].get("a") == "reset")
+    bad = json.loads(json.dumps(evs[s0:i0 + 1]))
+    bad[-1]["treeOk"] = False
+    p = ctx.wpath("crash-selftest.ndjson")
+    write_ndjson(p, bad)
+    ok, _idx, _rr = validate_trace("MerkleCommit", "TraceMerkleCommit", p, libs=["SubstateStore", "StateTree"])
+    os.unlink(p)
+    if ok:
+        raise ToolError("self-test: TraceMerkleCommit accepted a reopened store with a broken tree")
     stopped = sum(1 for e in crashes if e["crashed"])
     kinds = sorted({o.split(":")[0] for e in crashes for o in e["ops"]})
     multi = sum(1 for e in crashes if e["of"] > 1)
     return {"distinct_nontrivial": len({(json.dumps(e["upd"]), e["w"], e["step"]) for e in crashes if e["crashed"]}),
             "exhaustive": not q,
-            "rule": "S: TLC checks Consistent/PreOrPost for every crash position of the commit program as coded (one atomic batch, then "
-                    "pruning deletes) over all updates of a small instance, and as a negative control that the pre-fix program (individual "
-                    "substate writes) violates it. G: for model behaviours (4 partitions, resets/deltas/deletes) and EVERY commit the "
+            "rule": "S: TLC checks Consistent/PreOrPost/TreeIntact for every crash position of the commit program as coded (one atomic batch, then "
+                    "pruning deletes) over all updates of a small instance, and as negative controls that the pre-fix program (individual "
+                    "substate writes) violates Consistent and that pruning before the batch violates TreeIntact. G: for model behaviours (4 partitions, resets/deltas/deletes) and EVERY commit the "
                     "real store's write operations are counted through hook H1 (kinds seen: %s); for each position w (%s) the commit is "
                     "stopped right before write w on a fresh copy of the on-disk store, the store is reopened, and version, root and the "
                     "full substate listing are validated by TraceMerkleCommit.tla (pre or post state, root = the StateTree term of the SAME "
-                    "state). %d stops, %d of them in commits with more than one write; distinct = distinct (update, position)" %
+                    "state, and the stored tree of the recorded version walked from its root yields exactly the hashes of the substates held). %d stops, %d of them in commits with more than one write; distinct = distinct (update, position)" %
                     (",".join(kinds), "sampled: first 4, last, 2 random" if q else "all positions", stopped, multi)}
 
 
